@@ -27,6 +27,7 @@ package metastore
 //@   names ctx, params, optFns
 
 //@ func (*Metastore).Store
+//@   names d, ctx, keyID, created, ekr
 //@   facet C18
 //@   opt no-frame
 //@   requires d != nil && d.svc != nil && ekr != nil
@@ -34,6 +35,7 @@ package metastore
 //@   ensures [C18:key-record-fields-copied] ncalls(MarshalMap) == 1 && (forall e *envelope :: e == *dyn(arg(MarshalMap, 1, in), **envelope) ==> e != nil && e.EncryptedKey == ret(EncodeToString, 1, 0) && e.Created == ekr.Created && e.Revoked == ekr.Revoked && (ekr.ParentKeyMeta == nil ==> e.ParentKeyMeta == nil) && (ekr.ParentKeyMeta != nil ==> e.ParentKeyMeta != nil && e.ParentKeyMeta.ID == ekr.ParentKeyMeta.ID && e.ParentKeyMeta.Created == ekr.ParentKeyMeta.Created))
 
 //@ func decodeItem
+//@   names m
 //@   facet C18
 //@   opt no-frame
 //@   ensures [C18:key-read-as-standard-padded-base64] err == nil ==> ncalls(DecodeString) == 1 && arg(DecodeString, 1, enc) == base64.StdEncoding && result != nil && result.EncryptedKey == ret(DecodeString, 1, 0)
